@@ -172,7 +172,10 @@ type lspGen struct {
 	id    int
 	docs  map[string]bool
 	ver   int
-	texts []string
+	// how the client numbers its versions in this history: 1-2 increasing, 3 restarting now and then, 4 arbitrary,
+	// 5 decreasing, 6 sometimes omitted (0) — the mirror is defined by the sequence of changes, not by their numbers
+	verMode int
+	texts   []string
 	cur   map[string]string // the text last sent in full for a URI ("" when unknown)
 }
 
@@ -205,7 +208,33 @@ func (g *lspGen) pos() (int, int) {
 
 func (g *lspGen) step() lspStep {
 	uri := fmt.Sprintf("file:///d%d.sql", g.r.Intn(3))
-	g.ver++
+	if g.verMode == 0 {
+		g.verMode = 1 + g.r.Intn(6)
+	}
+	switch g.verMode {
+	case 3:
+		if g.r.Chance(20) {
+			g.ver = 1
+		} else {
+			g.ver++
+		}
+	case 4:
+		g.ver = 1 + g.r.Intn(9)
+	case 5:
+		if g.ver <= 1 {
+			g.ver = 40
+		} else {
+			g.ver--
+		}
+	case 6:
+		if g.r.Bool() {
+			g.ver = 0
+		} else {
+			g.ver = g.ver + 1 + g.r.Intn(3)
+		}
+	default:
+		g.ver++
+	}
 	if g.cur == nil {
 		g.cur = map[string]string{}
 	}
